@@ -1,3 +1,40 @@
-import SqliteDissect.Model.Wal
+/-
+C13 — results do not depend on how the parser is configured or invoked (strict vs relaxed
+checking on accepted input, store-in-memory vs on demand), at the level of the model.
+-/
+import SqliteDissect.Proofs.Config
+
 namespace SqliteDissect.Properties.C13
+open SqliteDissect SqliteDissect.Model
+
+/-- relaxed format checking never changes what strict checking accepted: a b-tree that parses
+under strict checking parses to the same pages under relaxed checking -/
+theorem tree_strict_irrelevant (v : VersionIf) (fuel number : Nat) (cls : PageType) (t : List BPage)
+    (h : parseBTree { v with strict := true } fuel number cls = .ok t) :
+    parseBTree { v with strict := false } fuel number cls = .ok t := by
+  exact Proofs.Config.tree_strict_irrelevant v fuel number cls t h
+
+/-- the same for a whole database file -/
+theorem database_strict_irrelevant (cfg : Config) (file : Buf) (db : Database) (v : VersionIf)
+    (h : openDatabase { cfg with strict := true } file = .ok (db, v)) :
+    ∃ v', openDatabase { cfg with strict := false } file = .ok (db, v') := by
+  exact Proofs.Config.database_strict_irrelevant cfg file db v h
+
+/-- keeping parsed pages in memory only adds an (idempotent) census at construction time: whatever
+the in-memory configuration returns, the on-demand configuration returns too -/
+theorem database_store_in_memory_irrelevant (cfg : Config) (file : Buf) (db : Database) (v : VersionIf)
+    (h : openDatabase { cfg with storeInMemory := true } file = .ok (db, v)) :
+    openDatabase { cfg with storeInMemory := false } file = .ok (db, v) := by
+  exact Proofs.Config.database_store_in_memory_irrelevant cfg file db v h
+
+/-- supplying the true file size is the same as not supplying it -/
+theorem database_given_size_irrelevant (cfg : Config) (file : Buf) (hs : 0 < file.size) :
+    openDatabase { cfg with givenSize := some file.size } file = openDatabase { cfg with givenSize := none } file := by
+  exact Proofs.Config.database_given_size_irrelevant cfg file hs
+
+/-- the leaf-only listing helpers return a sub-list of all cells of the tree (C14's last clause) -/
+theorem leaf_cells_sublist (t : List BPage) :
+    (leafCells t).Sublist (t.flatMap (·.cells)) := by
+  exact Proofs.Config.leaf_cells_sublist t
+
 end SqliteDissect.Properties.C13
